@@ -267,6 +267,11 @@ def check_emit_regeneration(repo: Repo, rep, rule: str = "R11.1") -> None:
             for cj in _conjuncts(x.ast, EL, stop=tuple(EL.params)):
                 if "_is_shared_core" in norm(cj) or (isinstance(cj, ast.Name) and cj.id in emit.params):
                     continue
+                # the shared-core predicate written in place: an expression over the emitter's own state and parameters (evaluated by R11.2)
+                if {x.id for x in ast.walk(cj) if isinstance(x, ast.Name)} <= set(emit.params) | {"self", "Path", "bool", "str", "len"} and not any(
+                        isinstance(x, ast.Call) and isinstance(x.func, ast.Attribute) and x.func.attr in ("exists", "is_file", "is_dir", "isfile", "isdir", "stat", "listdir")
+                        for x in ast.walk(cj)):
+                    continue  # (a test of the file system is not a layout predicate: "only when the registry already exists" skips the first client)
                 extra.append(norm(cj))
         if gs and not extra:
             rep.ok(rule, sub1 + " registry guard", f"registry consulted under `{norm(gs[0].ast)}` only", emit.loc(gs[0].ast))
@@ -291,10 +296,10 @@ def run(repo: Repo, rep: Report, tier: str) -> None:
     emit = cls.methods.get("emit")
     upd = cls.methods.get("_update_registry")
     shared = cls.methods.get("_is_shared_core")
-    for nm, m in (("emit", emit), ("_update_registry", upd), ("_is_shared_core", shared)):
+    for nm, m in (("emit", emit), ("_update_registry", upd)):
         if m is None:
             raise AnalysisError(f"anchor vanished: ExceptionsEmitter.{nm}")
-    assert emit and upd and shared
+    assert emit and upd
     from sa.flatten import flatten as _fl
 
     upd = _fl(upd)  # reading / writing the registry file may live in private helpers
@@ -442,42 +447,88 @@ def run(repo: Repo, rep: Report, tier: str) -> None:
     # therefore be imported unconditionally there.
     from rules._imports import import_names
 
-    gfc = repo.func(f"{EE}:ExceptionsEmitter._generate_for_codes")
+    from sa.resolve import follow_delegation as _fd
+
+    gfc = _fd(repo, repo.func(f"{EE}:ExceptionsEmitter._generate_for_codes"))
     from sa.flatten import flatten as _flatten
 
     bases = sorted({c.value for n in own_nodes(_flatten(gfc).node) if isinstance(n, (ast.Assign, ast.Return)) and n.value is not None for c in ast.walk(n.value)
                     if isinstance(c, ast.Constant) and c.value in ("ClientError", "ServerError", "HTTPError")})
     rep.require(len(bases) >= 2, f"R11.4: base classes used by _generate_for_codes not found ({bases})")
-    ev = repo.func("visit.exception_visitor:ExceptionVisitor.visit")
+    ev0 = repo.func("visit.exception_visitor:ExceptionVisitor.visit")
     from sa.match import Locals as _Locals3
+    from sa.report import with_flatten_fallback as _wff4
 
-    VL = _Locals3(ev.node)
-    vcfg = CFG(ev.node)
-    for b in bases:
-        regs = {n.id for n in vcfg.nodes if n.kind == "stmt" and n.ast is not None and any(
-            isinstance(c.func, ast.Attribute) and c.func.attr == "add_import" and b in import_names(c, VL) for c in calls_in(n.ast))}
-        sub = f"{ev.module.relpath}:ExceptionVisitor.visit imports `{b}` on every path"
-        w = vcfg.must_pass(vcfg.entry, regs) if regs else [vcfg.entry]
-        if regs and w is None:
-            rep.ok("R11.4", sub, f"`{b}` is imported unconditionally, so classes regenerated for other clients' codes find their base class", ev.loc())
-        else:
-            rep.violation("R11.4", sub, f"{ev.fq}|base-import-conditional|{b}",
-                          f"`{b}` is imported only when the current spec needs it ({vcfg.describe_path(w or [])}), but exception_aliases.py is regenerated for the "
-                          f"union of all clients: a class derived from `{b}` for another client's status raises NameError when the core is imported", ev.loc())
+    def _imports_body(ev, r_) -> None:
+        VL = _Locals3(ev.node)
+        vcfg = CFG(ev.node)
+        for b in bases:
+            regs = {n.id for n in vcfg.nodes if n.kind == "stmt" and n.ast is not None and any(
+                isinstance(c.func, ast.Attribute) and c.func.attr == "add_import" and b in import_names(c, VL) for c in calls_in(n.ast))}
+            sub = f"{ev0.module.relpath}:ExceptionVisitor.visit imports `{b}` on every path"
+            w = vcfg.must_pass(vcfg.entry, regs) if regs else [vcfg.entry]
+            if regs and w is None:
+                r_.ok("R11.4", sub, f"`{b}` is imported unconditionally, so classes regenerated for other clients' codes find their base class", ev0.loc())
+            else:
+                r_.violation("R11.4", sub, f"{ev0.fq}|base-import-conditional|{b}",
+                             f"`{b}` is imported only when the current spec needs it ({vcfg.describe_path(w or [])}), but exception_aliases.py is regenerated for the "
+                             f"union of all clients: a class derived from `{b}` for another client's status raises NameError when the core is imported", ev0.loc())
+
+    _wff4(rep, ev0, _imports_body)  # the registrations may sit in a helper of the visitor (`self._register_base_imports(context)`)
 
     # ---------------------------------------------------------------- R11.2 shared predicate over layouts
-    params = shared.params[1:]
+    # The predicate is whatever guards the registry update in emit besides "a client name was given": a call of a predicate method of the
+    # class (its body is interpreted with the call's arguments bound) and / or conditions written in place.
+    from sa.match import Locals as _L112, conjuncts as _cj112
+
+    ecfg = CFG(emit.node)
+    edom = ecfg.dominators()
+    ucall_nodes = [n for n in ecfg.nodes if n.kind == "stmt" and n.ast is not None and not n.copy and any(dotted(c.func) == "self._update_registry" for c in calls_in(n.ast))]
+    rep.require(len(ucall_nodes) == 1, f"R11.2: expected one self._update_registry(...) call in emit, found {len(ucall_nodes)}")
+    EL2 = _L112(emit.node)
+    pred_conjs: List[ast.AST] = []
+    if ucall_nodes:
+        for d in edom[ucall_nodes[0].id]:
+            t = ecfg.nodes[d]
+            if t.kind != "test":
+                continue
+            for cj in _cj112(t.ast, EL2, stop=tuple(EL2.params)):
+                if isinstance(cj, ast.Name) and cj.id in emit.params:
+                    continue
+                pred_conjs.append(cj)
+    rep.require(bool(pred_conjs), "R11.2: the registry update in emit is not guarded by a shared-core condition (anchor)")
+
+    def _emit_env(lay) -> Dict[str, Any]:
+        env: Dict[str, Any] = {"self.overall_project_root": lay["root"], "None": None}
+        for p_ in emit.params:
+            if "dir" in p_ or "path" in p_:
+                env[p_] = lay["core_dir"]
+            elif "package" in p_ or "client" in p_:
+                env[p_] = lay["client_pkg"]
+        return env
+
+    def _eval_conj(cj: ast.AST, lay) -> Any:
+        env = _emit_env(lay)
+        if isinstance(cj, ast.Call) and isinstance(cj.func, ast.Attribute) and isinstance(cj.func.value, ast.Name) and cj.func.value.id == "self" and cj.func.attr in cls.methods:
+            h = cls.methods[cj.func.attr]
+            hp = [p_ for p_ in h.params if p_ != "self"]
+            henv: Dict[str, Any] = {"self.overall_project_root": lay["root"], "None": None}
+            pa = PathAlgebra(env)
+            for i_, a_ in enumerate(cj.args):
+                if i_ < len(hp):
+                    henv[hp[i_]] = pa.ev(a_)
+            for k_ in cj.keywords:
+                if k_.arg in hp:
+                    henv[k_.arg] = pa.ev(k_.value)
+            return PathAlgebra(henv).run(h.node)
+        return PathAlgebra(env).ev(cj)
+
     n_eval = 0
     fails = []
     unsupported = None
     for lay in layouts():
-        env: Dict[str, Any] = {"self.overall_project_root": lay["root"], "None": None}
-        if params:
-            env[params[0]] = lay["core_dir"]
-        if len(params) > 1:
-            env[params[1]] = lay["client_pkg"]
         try:
-            res = PathAlgebra(env).run(shared.node)
+            res = all(_eval_conj(cj, lay) for cj in pred_conjs)
         except _Unsupported as e:
             unsupported = str(e)
             break
@@ -488,10 +539,11 @@ def run(repo: Repo, rep: Report, tier: str) -> None:
         if not res:
             fails.append(lay)
     rep.count("R11.2:layouts_evaluated", n_eval)
+    anchor_fn = shared if shared is not None else emit
     sub2 = f"{mod.relpath}:ExceptionsEmitter._is_shared_core"
     if unsupported:
         rep.error(f"R11.2: the shared-core predicate uses a construct the path-algebra interpreter does not model: {unsupported}")
-    else:
+    elif pred_conjs:
         seen_kinds = set()
         for lay in layouts():
             if lay["kind"] in seen_kinds:
@@ -501,16 +553,13 @@ def run(repo: Repo, rep: Report, tier: str) -> None:
             subk = f"{sub2} layout {lay['kind']}"
             if bad:
                 b = bad[0]
-                rep.violation("R11.2", subk, f"{shared.fq}|not-shared|{lay['kind']}",
+                rep.violation("R11.2", subk, f"{(shared.fq if shared is not None else emit.fq.replace('.emit', '._is_shared_core'))}|not-shared|{lay['kind']}",
                               f"core at {'/'.join(b['core_dir'])} with client package {b['client_pkg']} is not recognised as shared: the registry is "
                               "skipped and generating a second client "
                               + ("that re-uses this embedded core " if lay["kind"] == "embedded" else "")
-                              + "removes the first client's exception classes", shared.loc())
+                              + "removes the first client's exception classes", anchor_fn.loc())
             else:
-                rep.ok("R11.2", subk, "predicate is true for every client depth 1..3", shared.loc())
-    # the call passes the directory that is written to + the client name
-    calls = [c for c in calls_in(emit.node) if dotted(c.func) == "self._is_shared_core"]
-    rep.require(len(calls) == 1, f"R11.2: expected one _is_shared_core call in emit, found {len(calls)}")
+                rep.ok("R11.2", subk, "predicate is true for every client depth 1..3", anchor_fn.loc())
 
     rule_cleanup_keeps_registry(repo, rep, "R11.5")
     # ---------------------------------------------------------------- R11.3 additive
